@@ -5,7 +5,13 @@ A_WHEEL = "the mypyc-compiled pyjelly wheel in /venv site-packages is out of sco
 A_INT = "integers are mathematical (exact for Python ints); protobuf uint32 range is a precondition/obligation, never a wrap"
 COMMON = [A_CPY, A_WHEEL, A_INT]
 
+A_PROTO = "A-PROTO: protobuf (upb) message objects behave as modelled in pyvc/proto_model.py (constructor kwargs = field sets, proto3 defaults, uint32 range -> ValueError, oneof exclusivity, presence propagation to the parent, messages truthy, strings UTF-8 encodable); wire layout facts: varint(len) framing of write_delimited, field 1/wire type 2 tag 0x0A for RdfStreamFrame.rows and RdfStreamRow.options"
+
 PROPS = {
+    "C08": {"level": "proof", "assumptions": COMMON + [A_PROTO],
+            "explanation": "the real body of delimited_jelly_hint is executed symbolically under the premise 'the three bytes start a stream laid out as delimited(varint(L) ++ frame) or as a single frame whose first row is the options row', for all L and row lengths; the obligation is hint == framing"},
+    "C13": {"level": "proof", "assumptions": COMMON + [A_PROTO, A_NOOPT],
+            "explanation": "per-function contracts on options.py, encode_options, options_from_frame (field-by-field identity, exact raise conditions from the spec's compatibility table) and the header_roundtrip lemma composing them"},
     "C05": {"level": "proof", "assumptions": COMMON + [A_NOOPT],
             "explanation": "inductive invariant over lookup histories: constructors establish, every writer/reader operation preserves the coupling with the Jelly spec table; mirror lemmas compose writer and reader contracts"},
 }
